@@ -362,6 +362,39 @@ theorem flat_heads {L : Nat} {e : X} (h : WFX L e) : HeadsOK e.flat := by
   | assign L k v l r _ _ _ _ ihl _ => simpa [X.flat, List.append_assoc] using ihl.append ((k, v) :: r.flat)
   | comma a b _ _ iha _ => simpa [X.flat, List.append_assoc] using iha.append (("COMMA", ",") :: b.flat)
 
+/-- after a leading prefix `*` comes another expression head (so `[ * ]` is never an expression) -/
+def TimesOK (l : List Tk) : Prop :=
+  ∃ t r, l = t :: r ∧ (t.1 = "TIMES" → ∃ t2 r2, r = t2 :: r2 ∧ t2.1 ∈ exprHeads)
+
+theorem TimesOK.append {l : List Tk} (h : TimesOK l) (m : List Tk) : TimesOK (l ++ m) := by
+  obtain ⟨t, r, rfl, h2⟩ := h
+  refine ⟨t, r ++ m, rfl, fun hl => ?_⟩
+  obtain ⟨t2, r2, rfl, ht2⟩ := h2 hl
+  exact ⟨t2, r2 ++ m, rfl, ht2⟩
+
+theorem flat_times {L : Nat} {e : X} (h : WFX L e) : TimesOK e.flat := by
+  induction h with
+  | id L x => exact ⟨("ID", x), [], rfl, fun h => by simp at h⟩
+  | const L k v t hc =>
+    have := constKinds_facts k (constType_kind hc)
+    refine ⟨(k, v), [], rfl, fun hl => ?_⟩
+    simp only at hl; rw [hl] at this; exact absurd this.1 (by decide)
+  | paren L e _ _ => exact ⟨("LPAREN", "("), _, rfl, fun h => by simp at h⟩
+  | pre L k v e _ _ hw _ =>
+    obtain ⟨t, r, hfl, ht, _⟩ := flat_heads hw
+    exact ⟨(k, v), e.flat, rfl, fun _ => ⟨t, r, hfl, ht⟩⟩
+  | szof L e _ _ _ => exact ⟨("SIZEOF", "sizeof"), _, rfl, fun h => by simp at h⟩
+  | post L k v e _ _ _ ih => exact ih.append _
+  | index L e i _ _ _ ih _ => exact ih.append _
+  | member L k v e f _ _ _ ih => exact ih.append _
+  | call0 L f _ _ ih => exact ih.append _
+  | call L f a _ _ _ ih _ => exact ih.append _
+  | bin L p k v l r _ _ _ _ ihl _ => simpa [X.flat, List.append_assoc] using ihl.append ((k, v) :: r.flat)
+  | cond L c t f _ _ _ _ ihc _ _ =>
+    simpa [X.flat, List.append_assoc] using ihc.append (("CONDOP", "?") :: (t.flat ++ ("COLON", ":") :: f.flat))
+  | assign L k v l r _ _ _ _ ihl _ => simpa [X.flat, List.append_assoc] using ihl.append ((k, v) :: r.flat)
+  | comma a b _ _ iha _ => simpa [X.flat, List.append_assoc] using iha.append (("COMMA", ",") :: b.flat)
+
 /-- a postfix-level expression starts with an identifier, a constant or `(` -/
 theorem flat_head14 {e : X} (h : WFX 14 e) : ∃ t r, e.flat = t :: r ∧ t.1 ∈ primHeads := by
   generalize hL : 14 = L at h
